@@ -140,11 +140,11 @@ func c06One(c *mc.Ctx, k c06Case) (encoded bool) {
 				sink = &EnvWriter{}
 				// the caller's parameter maps are read-only for Encode at every moment, not only once it has returned (another
 				// goroutine may be encoding with the same maps): they are looked at whenever Encode calls into the writer
-				w = &zcWriter{sink: sink, OnOp: func() {
+				w = bxVal{&zcWriter{sink: sink, OnOp: func() {
 					if !mapsEqStr(p.StrInfo, snapStr) || !mapsEqInt(p.IntInfo, snapInt) {
 						bad("params-modified", "in the middle of Encode (at a call into the writer) the caller's parameter maps differ from what was passed in (StrInfo %d -> %d entries, IntInfo %d -> %d)", len(snapStr), len(p.StrInfo), len(snapInt), len(p.IntInfo))
 					}
-				}}
+				}}, 1}
 			} else if k.Writer == "bytes" {
 				// initial slice shapes: spare room, no spare room, room for exactly the 14-byte meta block
 				switch (int(k.Flags) + k.Payload + len(p.StrInfo)) % 3 {
